@@ -449,9 +449,11 @@ func (env *ExecEnv) Eval(expr string) (n int, err error) {
 		if e := recover(); e != nil {
 			l.Error(e.(error).Error())
 			err = l.err
+			verifHook(l, hkEvalExit)
 		}
 	}()
 
 	yyParse(l)
+	verifHook(l, hkEvalExit)
 	return l.n, l.err
 }
